@@ -970,20 +970,35 @@ class Checker:
                 self.rej("C02.extra-callback", f"guard {gid} evaluated but no event is left to process")
         if ctx.failing:
             return
+        tid = ev.get("tid")
         for _ in range(10000):
             if ctx.phase in ("validators", "cond"):
                 t = ctx.cands[ctx.ci]
-                if gid in self.guard_ids(t) and (ev.get("t_dst") in (None, t["dst"])) and gid not in ctx.seen_guards:
+                tids = ctx.__dict__.setdefault("tids", {})
+                same_t = tid is None or tids.get(ctx.ci) in (None, tid)
+                if gid in self.guard_ids(t) and same_t and (ev.get("t_dst") in (None, t["dst"])) and gid not in ctx.seen_guards:
+                    if tid is not None:
+                        tids[ctx.ci] = tid
                     raising = self.raising_validators(t)
                     if raising and bool(ctx.seen_validators & raising):
                         self.rej("C01.validator-aborts", f"guard {gid} evaluated after validator of t{t['i']} raised")
                     if ctx.phase == "validators" and self.validator_ids(t) - ctx.seen_validators:
                         self.soft("C02.order", f"guard {gid} evaluated before validators {sorted(self.validator_ids(t) - ctx.seen_validators)} of t{t['i']}")
                     ctx.seen_guards.add(gid)
+                    gk = next((g["kind"] for g in t["guards"] if g["name"] == name), None)
+                    if ev.get("val") in (True, False) and ((gk == "cond" and not ev["val"]) or (gk == "unless" and ev["val"])):
+                        ctx.decided_ci = ctx.ci
                     if ev.get("event") not in (None, ctx.event):
                         self.rej("C02.event-source-target", f"guard {gid}: injected event {ev.get('event')} != {ctx.event}")
                     return
-                if gid in self.guard_ids(t) and gid in ctx.seen_guards and (ev.get("t_dst") in (None, t["dst"])):
+                if gid in self.guard_ids(t) and gid in ctx.seen_guards and same_t and (ev.get("t_dst") in (None, t["dst"])):
+                    need = {g_ for g_ in self.guard_ids(t) if self.spec["guards"][g_.split("@")[0]]["kind"] != "attr"}
+                    decided = getattr(ctx, "decided_ci", None) == ctx.ci or need <= ctx.seen_guards
+                    nxt = ctx.cands[ctx.ci + 1] if ctx.ci + 1 < len(ctx.cands) else None
+                    if (tid is None and not self.enabled(t) and decided and nxt is not None
+                            and gid in self.guard_ids(nxt) and not self.validator_ids(nxt)):
+                        self._leave_candidate(ctx, f"guard {gid} of the next candidate was evaluated")
+                        continue
                     # repeated evaluation of a (pure) guard: only outcomes are judged (H2)
                     self.stats["repeated_guard_evals"] = self.stats.get("repeated_guard_evals", 0) + 1
                     return
